@@ -34,6 +34,7 @@ where
                 clone_is_identity::<C>(),
                 VERUS_ghost_iter.iter.obeys_prophetic_iter_laws(),
                 VERUS_ghost_iter.seq() == categories.remaining(),
+                categories.remaining().take(categories.remaining().len() as int) =~= categories.remaining(),   // used on exit: the whole sequence is consumed
                 // the abstraction: the categories found so far are the consumed prefix with later duplicates removed,
                 unique_lables@ == dedup_first(categories.remaining().take(VERUS_ghost_iter.index@)), //# inv-categories-are-prefix-deduplicated
                 // the counter is the number of categories found so far,
@@ -44,7 +45,7 @@ where
                     category_map@.contains_key(c) <==> unique_lables@.contains(c), //# inv-map-keys-are-the-categories
                 forall|i: int| 0 <= i < unique_lables@.len() ==>
                     category_map@.contains_key(#[trigger] unique_lables@[i]) && category_map@[unique_lables@[i]] == i, //# inv-map-value-is-position
-//@before category_map.contains_key(&l)
+//@loopbody 1
             let ghost old_ul = unique_lables@;
             proof {
                 let s = categories.remaining();
@@ -53,11 +54,13 @@ where
                 assert(l == s[i]);
                 assert(s.take(i + 1).drop_last() == s.take(i));
                 assert(s.take(i + 1).last() == l);
+                // a Vec's length fits usize (for every Vec, in particular the one after the push): the counter cannot overflow
+                assert forall|v: Vec<C>| (#[trigger] v@).len() <= usize::MAX by { assert(v@.len() == v.len()); }
             }
-//@before category_num += 1;
-                proof { assert(unique_lables@.len() == unique_lables.len()); }   // a Vec's length fits usize: the counter cannot overflow
-//@after category_num += 1;
-                proof {
+//@loopend 1
+            proof {
+                if unique_lables@ != old_ul {
+                    // a new category was appended
                     let ul = old_ul.push(l);
                     assert(unique_lables@ == ul);
                     assert forall|c: C| category_map@.contains_key(c) <==> ul.contains(c) by {
@@ -75,11 +78,7 @@ where
                         }
                     }
                 }
-//@before Self {
-        proof {
-            let s = categories.remaining();
-            assert(s.take(s.len() as int) == s);
-        }
+            }
 //@end
 }
 
